@@ -1,0 +1,27 @@
+//go:build verif
+
+package pubsub_controller
+
+import (
+	"context"
+
+	"github.com/aperturerobotics/bifrost/link"
+	"github.com/aperturerobotics/bifrost/pubsub"
+)
+
+// VerifSetPubSub sets the controlled PubSub (normally set by Execute).
+func (c *Controller) VerifSetPubSub(ps pubsub.PubSub) {
+	c.pubSubCtr.SetValue(&ps)
+}
+
+// VerifTrackLink runs the link tracker (trackedLink.trackLink) for the link.
+func (c *Controller) VerifTrackLink(ctx context.Context, lnk link.MountedLink) error {
+	tl := &trackedLink{
+		c:         c,
+		ctxCancel: func() {},
+		tpl:       pubsub.NewPeerLinkTuple(lnk),
+		lnk:       lnk,
+		le:        c.le.WithField("link-uuid", lnk.GetLinkUUID()),
+	}
+	return tl.trackLink(ctx)
+}
